@@ -7,7 +7,7 @@ import PbVerif.Model.DescViews
   fcheck <0|1> s1 e1 ..              FieldRanges.CheckValid(isMessageSet)  -> 1 (nil) / 0 (error)
   echeck s1 e1 ..                    EnumRanges.CheckValid()               -> 1 / 0
   first <k> p1..pk el1 el2 ..        generated list, one map; el = comma-separated key tokens -> k answers (index|nil)
-  last <k> p1..pk key1 key2 ..       OneofFields, one map                  -> k answers (index|nil)
+  oneof <k> p1..pk key1 key2 ..      OneofFields, one map (one key per member) -> k answers (index|nil)
   names <k> p1..pk s1 s2 ..          Names.Has(p_i) chars, then CheckValid -> "0101 1"
   fnums <k> p1..pk n1 n2 ..          FieldNumbers.Has(p_i)                 -> k chars
   required c:n ..                    c in o|r|p                            -> RequiredNumbers list ("-" if empty)
@@ -101,10 +101,10 @@ def step : List String → String
       | some (ps, els) =>
         let l : List (List String) := els.map (fun e => e.splitOn ",")
         unwordsOr "-" (ps.map fun p => showIdx (byKeyFirst (fun (d : List String) => d) l p)))
-  | "last" :: ws =>
+  | "oneof" :: ws =>
     (match splitProbes ws with
       | none => "bad-op"
-      | some (ps, keys) => unwordsOr "-" (ps.map fun p => showIdx (byKeyLast (fun (d : String) => d) keys p)))
+      | some (ps, keys) => unwordsOr "-" (ps.map fun p => showIdx (byKeyOneof (fun (d : String) => d) keys p)))
   | "names" :: ws =>
     (match splitProbes ws with
       | none => "bad-op"
